@@ -19,7 +19,7 @@ LEVEL = "exploration"
 RULE = (
     "any_iter / await_each: the grid {plain, awaitable} outer x {list, iterator, async iterator} x {plain items, "
     "awaitable items as coroutine / as object with __await__ / as Future-like object that is awaitable AND "
-    "iterable / suspending} x lengths 0-6 x every number of "
+    "iterable / suspending / as generator-based coroutine (types.coroutine)} x lengths 0-6 x every number of "
     "consumer steps 0..len+1 is ENUMERATED completely; items must be the plain list's objects in order, and the "
     "k-th awaitable may only be awaited after the consumer asked for item k (await log interleaved with the "
     "consumer log). apply: Hypothesis draws 0-3 positional and 0-3 keyword arguments as awaitables of three "
@@ -80,6 +80,18 @@ def wrap(ctx, kind, value, log=None, tag=None):
         return AwIter(ctx, value, log, tag)
     if kind == "suspending":
         return Aw(ctx, value, log, tag, susp=1)
+    if kind == "gencoro":
+        import types
+
+        @types.coroutine
+        def gen():
+            # generator-based coroutine: awaitable, although not an instance of collections.abc.Awaitable
+            if log is not None:
+                log.append(("await", tag))
+            return value
+            yield  # pragma: no cover
+
+        return gen()
 
     async def coro():
         if log is not None:
@@ -101,12 +113,12 @@ def close_unawaited(objs):
 def grid():
     out = []
     for outer, container, items, length in itertools.product(
-            ("plain", "coroutine", "object", "futurelike"), ("list", "iter", "aiter"),
-            ("plain", "coroutine", "object", "suspending", "futurelike"), range(0, 7)):
+            ("plain", "coroutine", "object", "futurelike", "gencoro"), ("list", "iter", "aiter"),
+            ("plain", "coroutine", "object", "suspending", "futurelike", "gencoro"), range(0, 7)):
         for steps in range(0, length + 2):
             out.append({"adapter": "any_iter", "outer": outer, "container": container, "items": items,
                         "length": length, "steps": steps})
-    for items, length in itertools.product(("coroutine", "object", "suspending", "futurelike"), range(0, 7)):
+    for items, length in itertools.product(("coroutine", "object", "suspending", "futurelike", "gencoro"), range(0, 7)):
         for container in ("list", "iter"):
             for steps in range(0, length + 2):
                 out.append({"adapter": "await_each", "container": container, "items": items, "length": length,
@@ -183,7 +195,7 @@ def grid_nontrivial(case):
 @st.composite
 def apply_cases(draw):
     # "shared": ONE reusable awaitable object passed for several parameters; every await of it gives a new value
-    kinds = st.sampled_from(["coroutine", "object", "suspending", "shared", "shared"])
+    kinds = st.sampled_from(["coroutine", "object", "suspending", "shared", "shared", "gencoro"])
     return {"adapter": "apply", "pos": draw(st.lists(kinds, max_size=3)),
             "kw": draw(st.lists(st.tuples(st.sampled_from(["a", "b", "c"]), kinds), max_size=3,
                                 unique_by=lambda t: t[0])),
@@ -276,7 +288,7 @@ def sync_cases(draw):
         kinds = st.sampled_from(["plain", "raise"])
     elif flavour == "def-mixed":
         kinds = st.sampled_from(["plain", "coroutine", "object", "raise", "suspending", "futurelike",
-                                 "coroutine-raises", "falsy-awaitable", "grumpy-plain"])
+                                 "coroutine-raises", "falsy-awaitable", "grumpy-plain", "gencoro"])
     else:
         kinds = st.sampled_from(["value", "raise"])
     return {"adapter": "sync", "flavour": flavour, "calls": draw(st.lists(kinds, min_size=1, max_size=4)),
